@@ -7,6 +7,10 @@
 (* and that the subband shapes are those of SliceGeometryOps.                               *)
 (* Root module at run time: a generated WaveletMC extends this module and the generated     *)
 (* filter tables (CONSTANT Filters <- TableFilters).                                        *)
+(* This module works on ONE component array; the state-level entry points (three components *)
+(* with independent luma / colour-difference sizes under one set of transform parameters:   *)
+(* forward_wavelet_transform, picture_encode, inverse_wavelet_transform, picture_decode)    *)
+(* are modelled by WaveletPicture.tla on top of the same WaveletOps operators.              *)
 EXTENDS WaveletOps
 
 CONSTANTS FilterPairs,   \* set of <<wavelet_index, wavelet_index_ho>>
